@@ -95,7 +95,15 @@ impl Check for C09 {
                 let rx = t - t % gran;
                 msgs.push(TMsg { ecu: (sources.len() % 4) as u8, boot: 0, rx_us: rx, ts: (i * 10) as u32, has_ts: true, kind: K_NOEXT, app: 0, mcnt: i as u8, n: 0, flags: 0 });
             }
-            let sched = if rng.chance(2, 3) { Some(gen_sched(rng)) } else { None };
+            let mut sched = if rng.chance(2, 3) { Some(gen_sched(rng)) } else { None };
+            // a recorder with a far-off clock: values no file can carry, so only for in-memory sources
+            if rng.chance(1, 12) {
+                let far = *rng.pick(&[u64::MAX - WALL_BASE_US - 40_000_000, i64::MAX as u64 - WALL_BASE_US - 12_000_000, 8_210_000_000_000_000_000u64]);
+                for m in msgs.iter_mut() {
+                    m.rx_us += far;
+                }
+                sched = None;
+            }
             sources.push(Source { msgs, sched });
         }
         let total: u32 = sources.iter().map(|s| s.msgs.len() as u32).sum();
@@ -127,6 +135,10 @@ impl Check for C09 {
         ctx.cfg("tied_reception_times");
         ctx.cfg("unordered_source");
         ctx.cfg("short_reads");
+        ctx.cfg("far_future_clock");
+        if c.sources.iter().any(|s| s.msgs.iter().any(|m| m.rx_us > 8_000_000_000_000_000_000)) {
+            ctx.fired("far_future_clock");
+        }
         let mut all_ordered = true;
         for s in &c.sources {
             if s.msgs.is_empty() {
@@ -223,7 +235,7 @@ impl Check for C09 {
         out
     }
     fn rule() -> &'static str {
-        "one run = 0-6 sources (recordings of simulated recorders: increasing, tied via coarse clocks, unordered via clock jumps, empty) of 0-40 messages each, two thirds of them pulled lazily as DltMessageIterator over LowMarkBufReader over a scripted short-read source, merged by one of the four constructors (sorting/sequential x new/new_or_single_it) with start index in {0, 1, random, near u32::MAX}; every output message is attributed to (source, position) through its payload; non-trivial = more than one source and more than one message; distinct = hash of (mode, per-source lengths and first reception times)"
+        "one run = 0-6 sources (recordings of simulated recorders: increasing, tied via coarse clocks, unordered via clock jumps, far-future clocks up to u64::MAX, empty) of 0-40 messages each, two thirds of them pulled lazily as DltMessageIterator over LowMarkBufReader over a scripted short-read source, merged by one of the four constructors (sorting/sequential x new/new_or_single_it) with start index in {0, 1, random, near u32::MAX}; every output message is attributed to (source, position) through its payload; non-trivial = more than one source and more than one message; distinct = hash of (mode, per-source lengths and first reception times)"
     }
     fn assumptions() -> Vec<&'static str> {
         vec![
@@ -238,6 +250,6 @@ impl Check for C09 {
         vec!["recorders (generator)", "underlying readers (ScriptedSource)"]
     }
     fn required_reach() -> Vec<&'static str> {
-        vec!["empty_source", "tied_reception_times", "unordered_source", "short_reads", "sorting_merge_runs", "sequential_chain_runs"]
+        vec!["empty_source", "tied_reception_times", "unordered_source", "short_reads", "far_future_clock", "sorting_merge_runs", "sequential_chain_runs"]
     }
 }
